@@ -3,6 +3,7 @@
 
 mod m_seq;
 mod m_token;
+mod m_transient;
 
 fn main() {
     // panics are data here: keep stderr quiet, report them as result lines
@@ -13,6 +14,7 @@ fn main() {
     let args: Vec<String> = std::env::args().collect();
     match args.get(1).map(|s| s.as_str()) {
         Some("token") => m_token::run(),
+        Some("transient") => m_transient::run(),
         Some("seq") => m_seq::run(args.get(2).expect("scenario file")),
         _ => {
             eprintln!("usage: harness <token|...>");
